@@ -135,3 +135,32 @@ Proof.
     + right. subst m. simpl in He. destruct (buy_rank _ _ _ _ _ _ _ _ _ I1 He) as [_ E]. lia.
   - right. pose proof (execute_rank_mono _ _ _ _ _ _ _ _ id I1 He). lia.
 Qed.
+
+(** ** Ids (C09), under every interleaving: an id issued once is never issued again — whichever
+    creation path, account or contract asks, in whatever order or nesting. *)
+Lemma mreach_used s s' : mreach s s' -> incl (l_used s) (l_used s') /\ incl (b_used s) (b_used s').
+Proof.
+  induction 1 as [|s s1 s2 o e sender fs m out _ IH He]; [split; apply incl_refl|].
+  destruct IH as [A B]. destruct (execute_used_mono _ _ _ _ _ _ _ _ He) as [C D].
+  split; eapply incl_tran; eassumption.
+Qed.
+
+Theorem listing_id_issued_once s o e a fs m id s1 out s2 o' e' a' fs' m' :
+  Inv s -> execute o e a fs m s = Ok (s1, out) -> creates_l_b m id = true -> mreach s1 s2 ->
+  creates_l_b m' id = true -> execute o' e' a' fs' m' s2 = Err.
+Proof.
+  intros I H Hc Hr Hc'. pose proof (execute_pres _ _ _ _ _ _ _ _ I H) as I1.
+  destruct (create_listing_fresh _ _ _ _ _ _ _ _ _ I H Hc) as (_ & _ & _ & Hu).
+  apply used_listing_id_refused with (id := id); [eapply mreach_Inv; eassumption | | exact Hc'].
+  apply (proj1 (mreach_used _ _ Hr)). exact Hu.
+Qed.
+
+Theorem bucket_id_issued_once s o e a fs m id s1 out s2 o' e' a' fs' m' :
+  Inv s -> execute o e a fs m s = Ok (s1, out) -> creates_b_b m id = true -> mreach s1 s2 ->
+  creates_b_b m' id = true -> execute o' e' a' fs' m' s2 = Err.
+Proof.
+  intros I H Hc Hr Hc'. pose proof (execute_pres _ _ _ _ _ _ _ _ I H) as I1.
+  destruct (create_bucket_fresh _ _ _ _ _ _ _ _ _ I H Hc) as (_ & _ & _ & Hu).
+  apply used_bucket_id_refused with (id := id); [eapply mreach_Inv; eassumption | | exact Hc'].
+  apply (proj2 (mreach_used _ _ Hr)). exact Hu.
+Qed.
